@@ -118,6 +118,8 @@ def run(prop, tier, seed, replay, clauses, n_quick, n_thorough, rule, gen_kw=Non
     plans += [g.lattice() for _ in range(n // 3)]
     plans += [g.unsized_plan(d7=False) for _ in range(n // 3)]      # ?Sized relaxations, wildcard rows
     plans += [g.shifted_nested_plan() for _ in range(max(3, n // 10))]   # nested members with shifted canonical numbers
+    plans += [g.interleaved_keys_plan() for _ in range(max(2, n // 20))]  # key order interleaving the bounded types
+    plans += [g.wildcard_prefix_plan() for _ in range(max(2, n // 20))]   # leading members leave a key unbound
     # adversarial presentation of a third of the plans: parameters spelled like reserved canonical names in permuted
     # order / like traits, items and associated types; bounds moved to the where-clause; declaration order shuffled
     from . import variants as V
